@@ -166,6 +166,8 @@ Fixpoint matches (fs : list field) (t : key) : bool :=
 Definition max32 : Z := 2147483647.
 Definition min32 : Z := -2147483648.
 Definition incr32 (v : Z) : Z := if max32 <? v + 1 then min32 else v + 1.
+(* the same for the other integer encodings (Int8/16/32/64Enc, unsigned ones): e = (minimum, maximum) of the field's type *)
+Definition incr_w (e : Z * Z) (v : Z) : Z := if snd e <? v + 1 then fst e else v + 1.
 
 (* KeyRangeLookup, first loop: number of leading fields with a non-NULL lower value that are all
    BoundsAreEqual, stopping at the first field whose lower and upper values are both NULL; None = give up *)
@@ -187,8 +189,8 @@ Fixpoint set_nth (n : nat) (v : cell) (t : key) : key :=
   end.
 
 (* KeyRangeLookup + IncrementTuple: the stop tuple, or None when the range is scanned with the search functions.
-   nullable = Desc.Types[i].Nullable for the w key fields. *)
-Definition key_range_lookup (nullable : list bool) (r : prange) : option key :=
+   nullable = Desc.Types[i].Nullable for the w key fields, encs = value range of each field's integer encoding. *)
+Definition key_range_lookup (nullable : list bool) (encs : list (Z * Z)) (r : prange) : option key :=
   match eq_prefix_len (r_fields r) with
   | None | Some O => None
   | Some (S n) =>
@@ -197,7 +199,7 @@ Definition key_range_lookup (nullable : list bool) (r : prange) : option key :=
       else match nth n (r_tup r) None with
            | None => None
            | Some v =>
-               let stop := pad (length (r_tup r)) (firstn n (r_tup r) ++ [Some (incr32 v)]) in
+               let stop := pad (length (r_tup r)) (firstn n (r_tup r) ++ [Some (incr_w (nth n encs (min32, max32)) v)]) in
                match cmp_key (r_tup r) stop with Lt => Some stop | _ => None end
            end
   end.
@@ -218,8 +220,8 @@ Definition scan_keyrange (start stop : key) (keys : list key) : list key :=
   slice (first_idx (fun t => key_leb start t) keys) (first_idx (fun t => key_leb stop t) keys) keys.
 
 (* Map.IterRange *)
-Definition iter_range (nullable : list bool) (keys : list key) (r : prange) : list key :=
-  let phys := match key_range_lookup nullable r with
+Definition iter_range (nullable : list bool) (encs : list (Z * Z)) (keys : list key) (r : prange) : list key :=
+  let phys := match key_range_lookup nullable encs r with
               | Some stop => scan_keyrange (r_tup r) stop keys
               | None => scan_tree (r_fields r) keys
               end in
